@@ -180,6 +180,27 @@ def duplicate_names(tree, rng):
 # ---------------------------------------------------------------- names
 
 
+def spell(i):
+    """the data name of item i: upper, mixed or lower case (the $anchor keeps the spelling of the declaration; every
+    reference - REDEFINES, DEPENDING ON - is spelled like the declaration)"""
+    return [f"N{i}", f"Nm-{i}", f"fld-{i}x", f"N{i}", f"Q{i}-Cnt"][i % 5]
+
+
+def extra_clauses(n):
+    """clauses that do not affect storage (VALUE, BLANK WHEN ZERO, JUSTIFIED), on some elementary items"""
+    if n["kind"] != "elem" or n.get("is_counter"):
+        return []
+    i, pic, out = n["id"], n["pic"], []
+    numeric_display = n["usage"] == "DISPLAY" and set(pic) <= set("S9V()0123456789") and "9" in pic
+    if i % 6 == 1 and numeric_display and not pic.startswith("S"):
+        out.append("BLANK WHEN ZERO")
+    if i % 6 == 2 and pic.startswith("X"):
+        out.append("JUSTIFIED RIGHT")
+    if i % 4 == 3 and n["redef"] is None and n["occ"] is None:
+        out.append("VALUE SPACES" if pic.startswith("X") else "VALUE ZERO")
+    return out
+
+
 def assign_names(tree):
     """id -> data name as the implementation will know it (unique_name): N<id>, or FILLER-k numbered in source order"""
     names, fill = {}, [0]
@@ -189,7 +210,7 @@ def assign_names(tree):
             fill[0] += 1
             names[n["id"]] = f"FILLER-{fill[0]}"
         else:
-            names[n["id"]] = f"N{n['id']}"
+            names[n["id"]] = spell(n["id"])
         for k in n["kids"]:
             go(k)
     go(tree)
@@ -202,10 +223,10 @@ def print_copybook(tree):
     def go(n, depth):
         level = "01" if depth == 0 else f"{depth * 5:02d}"
         ind = " " * (7 + 4 * min(depth, 6))
-        name = "FILLER" if n["filler"] else f"N{n['id']}"
+        name = "FILLER" if n["filler"] else spell(n["id"])
         parts = [f"{level}  {name}"]
         if n["redef"] is not None:
-            parts.append(f"REDEFINES N{n['redef']}")
+            parts.append(f"REDEFINES {spell(n['redef'])}")
         if n["occ"] is not None:
             if n["occ"][0] == "times":
                 parts.append(f"OCCURS {n['occ'][1]} TIMES")
@@ -216,11 +237,12 @@ def print_copybook(tree):
                 times = "" if v in (2, 4) else " TIMES"
                 on = "" if v in (3, 5) else " ON"
                 parts.append(f"OCCURS {lower}{n['occ'][2]}{times}")
-                parts.append(f"DEPENDING{on} N{n['occ'][1]}")
+                parts.append(f"DEPENDING{on} {spell(n['occ'][1])}")
         if n["kind"] == "elem":
             parts.append(f"PIC {n['pic']}")
             if n["usage"] != "DISPLAY":
                 parts.append(f"USAGE {n['usage']}")
+            parts += extra_clauses(n)
         for j, p in enumerate(parts):
             end = "." if j == len(parts) - 1 else ""
             lines.append((ind if j == 0 else ind + "    ") + p + end)
